@@ -74,3 +74,21 @@ func lemmaChallengeReencode(b []byte) {
 	enc := c.Marshal()
 	Vassert(len(enc) <= len(b) && string(enc) == in[:len(enc)])
 }
+
+// TokenRequest implementations (types 1, 2, 3, 5) cache their encoding in the object: Marshal may write the
+// receiver's own object and nothing else. (Assumed for an unknown dynamic type; the type-1 and type-2
+// implementations are checked against it by tokens/batched.lemmaRequestMarshalRefines.)
+//
+//@ iface ($PKG.TokenRequest).Marshal func(r TokenRequest) (out []byte)
+//@ assigns object(r)
+//@ end
+
+//@ iface ($PKG.TokenRequestWithDetails).Type func(r TokenRequestWithDetails) (t uint16)
+//@ assigns none
+//@ pure
+//@ end
+
+//@ iface ($PKG.TokenRequestWithDetails).TruncatedTokenKeyID func(r TokenRequestWithDetails) (id uint8)
+//@ assigns none
+//@ pure
+//@ end
